@@ -131,6 +131,10 @@ pub struct ObjSpec {
     pub start_ms: Option<i64>,
     pub target: Option<Target>,
     pub immediate_stop: Option<bool>,
+    /// for stream sources: where the stream stands when it is handed to flute (0 start, 1 after one byte,
+    /// 2 middle, 3 end); the object is the whole stream, every transfer re-reads it from its start
+    #[serde(default)]
+    pub stream_start: u8,
 }
 
 impl ObjSpec {
@@ -155,6 +159,7 @@ impl ObjSpec {
             start_ms: None,
             target: None,
             immediate_stop: None,
+            stream_start: 0,
         }
     }
     pub fn content(&self) -> Vec<u8> {
@@ -209,7 +214,13 @@ impl ObjSpec {
                 ObjectDesc::create_from_buffer(content, &self.ctype, &url, self.md5, cfg).map_err(|e| format!("{:?}", e))
             }
             Source::Stream(chunk) => {
-                let st = ChunkStream::new(content, chunk);
+                let mut st = ChunkStream::new(content, chunk);
+                st.pos = match self.stream_start {
+                    0 => 0,
+                    1 => 1.min(st.data.len()),
+                    2 => st.data.len() / 2,
+                    _ => st.data.len(),
+                };
                 ObjectDesc::create_from_stream(Box::new(st), &self.ctype, &url, self.md5, cfg)
                     .map_err(|e| format!("{:?}", e))
             }
